@@ -62,7 +62,7 @@ CHECKS.update({
 CHECKS.update({
     "C15": ("exploration",
             "structured request generation (RPC x field x boundary/pathological value, mixed valid/invalid streams) through the real server binary; stamp-based reference model of 'exactly the accepted items applied'",
-            "Generated RPC sequences (auth on/off x cosine/euclidean) over 15 request kinds: Insert / BulkInsert / BulkLoadHnsw items with vector classes {valid, empty, short, long, 4097 lanes, NaN, +Inf, -Inf, zero, -0.0, overflowing norm, denormal} x id classes {1..6, 0, u32::MAX, above u32::MAX, u64::MAX} x metadata classes {plain, empty key, reserved keys, 100 KB value, 2000 keys}; a 10,001-item BulkInsert; UpdateMetadata, Delete, BatchDelete (ids incl. 10,006-id list, malformed / 3000-deep / 40,000-wide / empty filters, no criteria), Query, BulkQuery, Search and BulkSearch with k in {0,1,3,10,1000,1001,u32::MAX}, ef_search in {0,1,16,200,10000,10001,u32::MAX}, non-finite min_score, 10 KB namespace; flushes, SIGTERM and SIGKILL restarts. Every write carries a unique stamp; after every request: an answer arrived, MUST-REFUSE classes were refused (status or failed item), VALID ones accepted, BulkQuery census == model of accepted items only, Health and a canary Search still OK; after the final restart the census is unchanged.",
+            "Generated RPC sequences (auth on/off x cosine/euclidean) over 15 request kinds: Insert / BulkInsert / BulkLoadHnsw items with vector classes {valid, empty, short, long, 4097 lanes, NaN, +Inf, -Inf, zero, -0.0, overflowing norm, denormal} x id classes {1..6, 0, u32::MAX, above u32::MAX, u64::MAX} x metadata classes {plain, empty key, reserved keys, 100 KB value, 2000 keys}; a 10,001-item BulkInsert; UpdateMetadata, Delete, BatchDelete (ids incl. 10,006-id list and allowed lists of 511-9,990 ids with the generated ids at the end, malformed / 3000-deep / 40,000-wide / empty filters, no criteria), Query, BulkQuery, Search and BulkSearch with k in {0,1,3,10,1000,1001,u32::MAX}, ef_search in {0,1,16,200,10000,10001,u32::MAX}, non-finite min_score, 10 KB namespace; flushes, SIGTERM and SIGKILL restarts. Every write carries a unique stamp; after every request: an answer arrived, MUST-REFUSE classes were refused (status or failed item), VALID ones accepted, BulkQuery census == model of accepted items only, Health and a canary Search still OK, and across every READ request (valid or not, incl. bursts of 3-8 identical searches) the canary's answer is unchanged; after the final restart the census is unchanged.",
             "EITHER-class inputs (zero / -0.0 / overflowing-norm / denormal vectors, odd metadata, malformed filters, non-finite min_score, ids above u32::MAX without auth) may be accepted or refused; only agreement between the answer and the effect is judged for them. 'Unanswered' = DEADLINE_EXCEEDED after 20 s, UNAVAILABLE, CANCELLED or UNKNOWN.",
             "DESIGN.md §3 C15"),
 })
@@ -78,7 +78,7 @@ CHECKS.update({
 CHECKS.update({
     "C05": ("exploration",
             "schedule enumeration and generation at lock granularity (patched parking_lot + controlled scheduler) with a linearizability checker (exhaustive memoised Wing-Gong search per document) over the recorded call/return history",
-            "2-3 client threads run programs of write / overwrite / delete / point read / read with metadata / bulk read / metadata read / exists / drain / search on two shared ids (one mirrored in the recent-write tier, one canonical-only with a warm L1a entry); every write carries a unique version in the vector AND the metadata. Part pairs: every ordered pair of single-operation programs (and the same pair preceded by a fresh write) on each id x 5 cache strategies x 3 engine shapes x EVERY single-preemption schedule (complete at bound 1; ~210k schedules). Part programs: generated programs x 1-4 generated preemptions. Oracles: a linearization exists per id (real-time order respected, reads return the latest write or absent), no read returns a version that was not written, vector and metadata of one read carry the same version; quiescent reads before and after a quiescent drain are appended to every history.",
+            "2-3 client threads run programs of write / overwrite / delete / batch delete / point read / read with metadata / bulk read / metadata read / exists / drain / search on two shared ids (one mirrored in the recent-write tier, one canonical-only with a warm L1a entry); every write carries a unique version in the vector AND the metadata. Part pairs: every ordered pair of single-operation programs (and the same pair preceded by a fresh write) on each id x 5 cache strategies x 3 engine shapes x EVERY single-preemption schedule (complete at bound 1; ~210k schedules). Part programs: generated programs x 1-4 generated preemptions. Oracles: a linearization exists per id (real-time order respected, reads return the latest write or absent), no read returns a version that was not written, vector and metadata of one read carry the same version; quiescent reads before and after a quiescent drain are appended to every history.",
             "Scheduling points are lock operations and API-call boundaries: races on atomics between two lock operations are not interleaved. A delete's `existed` flag is not judged (the property constrains reads); writes returning Err may or may not take effect. Engine-level API (TieredEngine); the server's Query handler, which also assembles metadata and vector from two calls, is not driven under the scheduler.",
             "DESIGN.md §3 C05, §2.5"),
 })
